@@ -955,7 +955,8 @@ def facts_from_programs(P):
     f["unlockOnError"] = not P["runSteps2_error"]["locked_at_end"] and not P["stream_error"]["locked_at_end"]
     f["unlockOnClientGone"] = not P["stream_gone2"]["locked_at_end"]
     f["refusalKeepsLock"] = all("CL" not in P[n]["labels"] for n in
-                                ("runStep_refused", "runSteps_refusedAtTest", "runSteps_refusedAtAcquire", "stream_refused"))
+                                ("runStep_refused", "runSteps_refusedAtTest", "runSteps_refusedAtAcquire", "stream_refused")
+                                if P[n]["status"] == 500 and "SL" not in P[n]["labels"])
     return f
 
 
